@@ -365,7 +365,8 @@ def record_hom(ctx, conn, rng, masks, groups, dates, out, prices=None):
         if f[0] == 'units':
             op = 1
         elif prices is not None or f[0] == 'cost':
-            op = 1 if mul_in_domain(jpos, jprices, sc) else 0
+            # the operators are applied to every row AND to the summed inventory
+            op = 1 if mul_in_domain(jpos + hb.json_inventory(invs[0], sc), jprices, sc) else 0
         line = {'k': 'hom', 'id': len(out) + 1, 'f': list(f), 'sc': sc, 'prices': jprices, 'op': op, 'pos': jpos,
                 'fpos': jf, 'sum_pos': hb.json_inventory(invs[0], sc), 'sum_f': hb.json_inventory(invs[1], sc),
                 'f_sum': hb.json_inventory(invs[2], sc), 'groups': jgroups}
@@ -385,7 +386,7 @@ def mul_in_domain(jpos, jprices, sc):
     def ok(a, b):
         return abs(a * b) < lim and (a * b) % sc == 0
     for (cur, cost), n in jpos:
-        if cost[0] and not ok(n, cost[0]):
+        if (cost[0] and not ok(n, cost[0])) or not ok(n, sc):     # sc: the rate of a currency into itself
             return False
         for b1, q1, _, r1 in jprices:
             if b1 != cur:
